@@ -148,3 +148,61 @@ def rule_config_forwarded(ctx: Ctx, rep: Report, rule: str, cls_qual: str, field
                     ok = norm(given) == f"self.{fld}" or f"self.{fld}" in norm(given) or norm(given) in stored
                     rep.ob(rule, key, ok, fi.where(c), f"{pname}={norm(given)}" + ("" if ok else f": not the signer's own {fld}"))
     rep.floor(rule, floor)
+
+
+OWN_FIELD_NOT_FORWARDED_OK = {
+    ("btclib.bip32.key_origin.BIP32KeyOrigin.to_dict", "str_from_der_path", "master_fingerprint"):
+        "the dict carries the fingerprint under its own key; the path is written without it",
+}
+
+
+def rule_own_fields_forwarded(ctx: Ctx, rep: Report, rule: str, module_prefixes: tuple[str, ...], floor: int) -> None:
+    """An object that holds a value under a name (a dataclass field, or an
+    attribute its constructor stores from a same-named parameter: `network`,
+    `ec`, `hf`, `psbt_version`, `compressed`, ...) and calls a function that
+    has a parameter of that name hands its own value over -- an omitted
+    argument means the callee's default is in force where the caller's choice
+    should be. Inferred over the package: 157 such call sites, 1 reviewed
+    exception; the instances are re-derived from the source on every run."""
+    n = 0
+    for cq, ci in sorted(ctx.prog.classes.items()):
+        if not any(cq.startswith(p_) for p_ in module_prefixes):
+            continue
+        init = ci.methods.get("__init__") or ci.methods.get("__post_init__")
+        fields: dict[str, str] = {}
+        if init is not None:
+            for a in own_nodes(init.node):
+                if isinstance(a, ast.Assign) and isinstance(a.value, ast.Name) and a.value.id in init.params():
+                    for t in a.targets:
+                        if isinstance(t, ast.Attribute) and isinstance(t.value, ast.Name) and t.value.id == "self":
+                            fields[t.attr] = a.value.id
+        for f in ci.fields():
+            fields.setdefault(f, f)
+        if not fields:
+            continue
+        for mname, fi in sorted(ci.methods.items()):
+            if not fi.params() or fi.params()[0] != "self":
+                continue
+            for c in own_nodes(fi.node):
+                if not isinstance(c, ast.Call):
+                    continue
+                callee = ctx.prog.functions.get(ctx.resolve_call(fi, c) or "")
+                if callee is None or callee.cls is ci:
+                    continue
+                ps = callee.params()
+                if ps and ps[0] in ("self", "cls"):
+                    ps = ps[1:]
+                kwonly = {x.arg for x in callee.node.args.kwonlyargs}
+                if any(isinstance(x, ast.Starred) for x in c.args) or any(k.arg is None for k in c.keywords):
+                    continue
+                for fld, pname in sorted(fields.items()):
+                    if pname not in ps or pname in fi.params():
+                        continue  # the method has its own parameter of that name: the caller of the method decides
+                    n += 1
+                    given = any(k.arg == pname for k in c.keywords) or (pname not in kwonly and ps.index(pname) < len(c.args))
+                    key = f"{ci.name}.{mname}->{callee.qualname.rsplit('.', 1)[1]}({pname})@{c.lineno - fi.node.lineno}"
+                    why = OWN_FIELD_NOT_FORWARDED_OK.get((fi.qualname, callee.qualname.rsplit(".", 1)[1], pname))
+                    rep.ob(rule, key, given or why is not None, fi.where(c),
+                           "handed over" if given else f"reviewed: {why}" if why else
+                           f"`{callee.qualname.rsplit('.', 1)[1]}` has a parameter `{pname}` and {ci.name} holds self.{fld}, but the call leaves it out: the callee's default is in force, not the object's own value")
+    rep.floor(rule, floor)
